@@ -50,7 +50,7 @@ THEOREMS = {
     "C15": ["Labels.canon_sorted", "Labels.canon_perm_self", "Labels.canon_perm", "Labels.values_perm", "Labels.canonTable_perm",
             "Labels.widen_perm", "Labels.widen_get", "Labels.ingest_factors"],
     "C16": ["Records.rows_faithful", "Records.rows_fill", "Records.untracked_never_written", "Records.storage_independent",
-            "Records.early_stop_intact", "Records.crash_row", "Records.run_time", "Records.stepwise_eq_loop", "Records.phase_order", "Records.guards_complete",
+            "Records.early_stop_intact", "Records.crash_row", "Records.run_time", "Records.stepwise_eq_loop", "Records.phase_order", "Records.one_write_per_record", "Records.guards_complete",
             "Records.helpers_write_own_row", "Records.specs_bijective", "Records.writes_after_their_phase"],
     "C17": ["Storage.run_function", "Storage.isolation", "Storage.fresh_defaults_distinct", "Storage.shared_default_breaks_isolation",
             "Storage.ingest_preserves", "Storage.event_reusable", "Storage.defaults_safe"],
@@ -77,22 +77,22 @@ MODULES["C04"] = ["Boario.Properties.C04", "Boario.Properties.LayoutThm", "Boari
 
 # scenario streams: (stream name, number of scenarios quick, thorough)
 STREAMS = {
-    "C02": [("shocked", 14, 200), ("shortage", 10, 150), ("multi", 8, 100), ("mild", 6, 80), ("crash", 4, 60)],
-    "C19": [("early", 16, 160), ("multi", 8, 80), ("negfd", 6, 40)],
-    "C09": [("recover", 36, 400), ("multi", 8, 100)],
-    "C10": [("multi", 20, 200), ("recover", 10, 100), ("rebuild", 10, 100)],
+    "C02": [("shocked", 14, 200), ("shortage", 10, 150), ("multi", 8, 100), ("mild", 6, 80), ("crash", 4, 60), ("earlydt", 8, 80)],
+    "C19": [("early", 16, 160), ("multi", 8, 80), ("negfd", 6, 40), ("earlydt", 8, 80)],
+    "C09": [("recover", 36, 400), ("multi", 8, 100), ("earlydt", 8, 80)],
+    "C10": [("multi", 20, 200), ("recover", 10, 100), ("rebuild", 10, 100), ("earlydt", 8, 80)],
     "C11": [("multi", 30, 300), ("rebuild", 10, 100)],
     "C20": [("shocked", 12, 100), ("shortage", 8, 80), ("crash", 8, 80), ("multi", 8, 80), ("eventfree", 6, 60), ("excess", 6, 40)],
     "C01": [("eventfree", 40, 400)],
-    "C08": [("rebuild", 30, 300), ("multi", 10, 100)],
+    "C08": [("rebuild", 30, 300), ("multi", 10, 100), ("earlydt", 8, 80)],
     "C13": [("units", 24, 200)],
     "C18": [("shocked", 12, 120), ("shortage", 6, 60), ("eventfree", 6, 60)],
     "C03": [("shortage", 24, 300), ("shocked", 16, 200)],
-    "C04": [("shocked", 24, 300), ("shortage", 16, 200)],
+    "C04": [("shocked", 20, 300), ("shortage", 12, 200), ("multi", 10, 100), ("rebuild", 8, 80)],
     "C05": [("shocked", 12, 200), ("shortage", 8, 150), ("crash", 10, 150), ("starve", 8, 60), ("mild", 8, 100)],
     "C06": [("shocked", 16, 300), ("shortage", 12, 200), ("mild", 16, 200)],
     "C07": [("shocked", 30, 400), ("excess", 10, 100)],
-    "C14": [("shocked", 20, 300), ("shortage", 20, 200)],
+    "C14": [("shocked", 20, 300), ("shortage", 16, 200), ("earlydt", 10, 100)],
 }
 
 # phases whose correspondence obligations can fail this property's check
@@ -108,7 +108,7 @@ PHASES = {
     "C13": ["events_pre", "events_post"],
     "C18": ["production", "orders"],
     "C03": ["production"],
-    "C04": ["distribute"],
+    "C04": ["distribute", "events_post"],        # events_post: each rebuilding event is credited with the deliveries of its own block
     "C05": ["distribute"],
     "C06": ["orders"],
     "C07": ["events_pre"],
@@ -117,7 +117,7 @@ PHASES = {
 
 # per-step oracles (names in harness.oracles.PER_STEP) and per-run oracles
 STEP_ORACLES = {pid: [pid] for pid in ("C03", "C04", "C05", "C06", "C07", "C14")}
-STEP_ORACLES.update({"C02": ["C02"], "C20": ["C20"], "C08": ["C08"], "C09": ["C09"], "C10": ["C10"], "C11": ["C11", "C08"]})
+STEP_ORACLES.update({"C04": ["C04", "C08"], "C02": ["C02"], "C20": ["C20"], "C08": ["C08"], "C09": ["C09"], "C10": ["C10"], "C11": ["C11", "C08"]})
 
 # per-run oracles, construction obligations, paired-run oracles (names resolved in harness/runner.py)
 RUN_ORACLES = {"C01": ["c01"], "C05": ["c05_run"], "C07": ["c07_capital"], "C08": ["c08_init"], "C11": ["c11_run"]}
@@ -162,7 +162,7 @@ CLAIMS = {
             "note": _NOTE, "technique": "Lean 4 theorems + differential correspondence of the three impact constructors"},
     "C15": {"text": "Theorems canon_perm (every ordering of a labelled input has the same canonical form), canon_sorted, canon_perm_self, values_perm, canonTable_perm (rows and columns of a table), widen_perm / widen_get (label-based widening), ingest_factors (anything computed from the canonical form is independent of the order). Partial: bit-identity is a statement about floats; it follows only if the implementation does no arithmetic before canonicalising, which is what the check establishes dynamically: arrays ingested from permuted inputs must equal the canonical arrays exactly, and whole runs on permuted inputs are compared bit for bit.",
             "note": _NOTE, "technique": "Lean 4 theorems (partial, see text) + exact ingestion correspondence + bitwise paired runs on permuted inputs"},
-    "C16": {"text": "Theorems on the record-layer model, for every step length dt (rows are indexed by temporal unit: step j writes row j*dt, rows in between keep the fill value): rows_faithful, rows_fill, run_time, stepwise_eq_loop (a run is its first i steps continued by the others: one step at a time = loop), untracked_never_written, storage_independent (the log does not depend on which records are files), early_stop_intact, crash_row; and on tables REGENERATED from the source on every run: phase_order (the statements of next_step, in order), guards_complete (each write guard tests its own name against files then memory), helpers_write_own_row, specs_bijective, writes_after_their_phase. Partial: that memmap files read back equal the memory and that the JSON artefacts describe the run is library / OS behaviour, checked by reading back on generated runs (record subsets x register_stocks x loop / manual x stopping point).",
+    "C16": {"text": "Theorems on the record-layer model, for every step length dt (rows are indexed by temporal unit: step j writes row j*dt, rows in between keep the fill value): rows_faithful, rows_fill, run_time, stepwise_eq_loop (a run is its first i steps continued by the others: one step at a time = loop), untracked_never_written, storage_independent (the log does not depend on which records are files), early_stop_intact, crash_row; and on tables REGENERATED from the source on every run: phase_order (the control statements of next_step - phase calls, the t > 1 guard, the try / except RuntimeError around distribution and ledgers, the increment - in order; two record writes that follow the same phase may be listed in any order), one_write_per_record, guards_complete (each write guard tests its own name against files then memory), helpers_write_own_row, specs_bijective, writes_after_their_phase. Partial: that memmap files read back equal the memory and that the JSON artefacts describe the run is library / OS behaviour, checked by reading back on generated runs (record subsets x register_stocks x loop / manual x stopping point).",
             "note": _NOTE + " The translator harness/translate.py (Python ast) is trusted to extract the statements of next_step and the record tables faithfully; unknown syntax is emitted as `unknown` items, which makes the theorems fail.",
             "technique": "Lean 4 theorems on a record-layer model + `rfl`/`decide` theorems on tables regenerated from the source by a translator + read-back of every record and JSON artefact"},
     "C17": {"text": "Theorems run_function (the model is a function of its inputs), isolation (on a key -> file world: with pairwise distinct keys a simulation reads back exactly its own rows whatever else is constructed or run), fresh_defaults_distinct, shared_default_breaks_isolation (witness of the repaired defect), ingest_preserves and event_reusable (copy-before-mutate leaves caller objects unchanged), defaults_safe (`decide` on the default-argument table REGENERATED from the source: no default is a call evaluated at definition time, no mutable default is mutated). Partial: that the Python code follows the copying discipline and allocates keys per instance is a fact about object identity at run time, established only dynamically (deep snapshots of caller objects, interleaved histories of live simulations compared bitwise with isolated runs, Event reuse).",
